@@ -338,3 +338,22 @@ func TestF12SpecialFilePerms(t *testing.T) {
 		t.Errorf("fifo permissions = %o, want 666", got)
 	}
 }
+
+// F16: a daemon upload whose destination subdirectory is a symlink leaving the
+// module (written with a trailing slash) must be refused, not followed.
+// (With the pinned go1.25.0 toolchain os.Root follows "name/" for a symlink.)
+func TestF16UploadSubdirSymlinkEscape(t *testing.T) {
+	tmp := t.TempDir()
+	src, mod, outside := filepath.Join(tmp, "src"), filepath.Join(tmp, "mod"), filepath.Join(tmp, "outside")
+	write(t, filepath.Join(src, "planted"), "p")
+	os.MkdirAll(mod, 0755)
+	os.MkdirAll(outside, 0755)
+	if err := os.Symlink(outside, filepath.Join(mod, "pub")); err != nil {
+		t.Fatal(err)
+	}
+	srv := rsynctest.New(t, rsynctest.WritableInteropModule(mod))
+	out, err := rsynctest.CombinedOutput("gokr-rsync", "--gokr.dont_restrict", "-a", src+"/", "rsync://localhost:"+srv.Port+"/interop/pub/")
+	if got := ls(t, outside); len(got) != 0 {
+		t.Errorf("upload escaped the module through the symlinked subdirectory: outside now holds %v (err=%v)\n%s", got, err, out)
+	}
+}
